@@ -1154,6 +1154,23 @@ class Interp:
         self.class_of_index = dict(old)
         self.class_of_index[k] = cls
         self.loops.append(lc)
+        # accumulation written as a plain re-assignment (`acc = acc + f(x)`, also through overloaded operators): the variable reads as
+        # a placeholder during the body, and the single `=` effect is accepted when it is placeholder (+) g(x) with g free of it
+        acc_vars = {}
+        if body_expr is not None:
+            from .models import placeholder_like
+            for vid in whole_assigned_vars(body_expr):
+                if vid in inner_vars or env.lookup(vid) is None:
+                    continue
+                try:
+                    cur = env.get(vid)
+                    if isinstance(cur, PlaceRef):
+                        continue
+                    ph = placeholder_like(self, cur, fresh("acc"))
+                except Undecided:
+                    continue
+                acc_vars[vid] = (cur, ph)
+                env.set(vid, ph)
         try:
             benv = Interp.Env(env)
             elem = seq.at(k)
@@ -1166,6 +1183,21 @@ class Interp:
         finally:
             self.loops.pop()
             self.class_of_index = old
+            for vid, (cur, _ph) in acc_vars.items():
+                env.set(vid, cur)
+        if acc_vars:
+            from .models import fold_combine
+            for vid, (cur, ph) in acc_vars.items():
+                effs = [ef for ef in lc.effects if ef[0] == vid]
+                if not effs:
+                    continue
+                if len(effs) != 1 or effs[0][1] or effs[0][2] != "=" or effs[0][5]:
+                    raise Undecided("accumulator %s is updated more than once / partially in the loop body" % self.var_names.get(vid, vid))
+                (_v, _p, _o, val, gs, _b) = effs[0]
+                new = fold_combine(self, cur, ph, val, k, cls, list(gs))
+                lc.effects = [ef for ef in lc.effects if ef[0] != vid]
+                lc.reads.discard(vid)
+                self.update(vid, [], "=", new, env, summarised=True)
         # loop-carried dependence: a variable that is written by the loop and also read in it may observe earlier iterations
         written = set(var for (var, _p, _o, _v, _g, _b) in lc.effects)
         carried = sorted(v_ for v_ in (written & lc.reads) if v_ not in lc.inner_vars)
@@ -1480,6 +1512,31 @@ def collect_bound_vars(e):
             for v in x:
                 walk(v)
     walk(e)
+    return out
+
+
+def whole_assigned_vars(expr):
+    """ids of variables that the expression assigns as a whole with `=` (no projection on the left-hand side)"""
+    out = []
+
+    def walk(x):
+        if isinstance(x, dict):
+            if x.get("k") == "assign":
+                l = strip(x["l"])
+                while isinstance(l, dict) and l.get("k") in ("deref", "use") and "e" in l:
+                    l = strip(l["e"])
+                if isinstance(l, dict) and l.get("k") in ("var", "upvar"):
+                    vid = l["var"]["id"]
+                    if vid not in out:
+                        out.append(vid)
+            if x.get("k") == "closure":
+                return
+            for v in x.values():
+                walk(v)
+        elif isinstance(x, list):
+            for v in x:
+                walk(v)
+    walk(expr)
     return out
 
 
